@@ -37,7 +37,7 @@ theorem kindOf_other_iff (n : String) : kindOf n = .other ↔ n ∉ controlNames
     all_goals simp_all
   · intro h
     simp only [List.mem_cons, List.not_mem_nil, or_false, not_or] at h
-    simp [h.1, h.2.1, h.2.2.1, h.2.2.2.1, h.2.2.2.2]
+    simp [h.1, h.2.1, h.2.2.1, h.2.2.2]
 
 theorem kindOf_exec (n : String) : kindOf n = .exec ↔ n = "EXEC" := by
   unfold kindOf
@@ -117,18 +117,21 @@ theorem execFold_slot (q : Quirks) (b : Bool) (cid now : Nat) (st : ExecSt) (cs 
 
 /-- commands that `runOne` does not treat itself go to the key-space machine -/
 def plain (c : Cmd) : Bool :=
-  nameOf c != "SELECT" && nameOf c != "BLPOP" && nameOf c != "BRPOP" && !externalNames.contains (nameOf c)
+  nameOf c != "SELECT" && nameOf c != "BLPOP" && nameOf c != "BRPOP" && !externalNames.contains (nameOf c) &&
+    !connectionNames.contains (nameOf c) && nameOf c != "UNWATCH"
 
 theorem runOne_plain (q : Quirks) (b : Bool) (cid : Nat) (st : ExecSt) (now : Nat) (c : Cmd) (h : plain c = true) :
     runOne q b cid st now c =
       ({ st with store := (KS.step q.ks st.store st.db now c none).1 }, .frame (KS.step q.ks st.store st.db now c none).2) := by
   unfold plain at h
   simp only [Bool.and_eq_true, bne_iff_ne, ne_eq, Bool.not_eq_true'] at h
-  obtain ⟨⟨⟨h1, h2⟩, h3⟩, h4⟩ := h
+  obtain ⟨⟨⟨⟨⟨h1, h2⟩, h3⟩, h4⟩, h5⟩, h6⟩ := h
   have h4' : nameOf c ∉ externalNames := by
     intro hm; have := List.contains_iff_mem.2 hm; simp_all
+  have h5' : nameOf c ∉ connectionNames := by
+    intro hm; have := List.contains_iff_mem.2 hm; simp_all
   unfold runOne
-  simp [h1, h2, h3, h4']
+  simp [h1, h2, h3, h4', h5', h6]
 
 /-- the connection the command runs for and the `inExec` flag matter only to SELECT (when the
     switch is on) and to blocking pops that would block -/
@@ -163,6 +166,21 @@ theorem execFold_db (q : Quirks) (b : Bool) (cid now : Nat) (st : ExecSt) (cs : 
   | nil => rfl
   | cons c cs ih => simp [execFold_cons, ih, runOne_db]
 
+/-! ### arity of the control commands -/
+
+theorem badArity_other (q : Quirks) (cmd : Cmd) (h : kindOf (nameOf cmd) = .other) : badArity q cmd = false := by
+  unfold badArity; simp [h]
+
+theorem badArity_watch (q : Quirks) (cmd : Cmd) (h : kindOf (nameOf cmd) = .watch) : badArity q cmd = false := by
+  unfold badArity; simp [h]
+
+/-- the command has the arity the control commands require (or the switch that ignores it is on) -/
+def arityOk (q : Quirks) (cmd : Cmd) : Prop := cmd.length = 1 ∨ q.controlArityUnchecked = true
+
+theorem badArity_ok (q : Quirks) (cmd : Cmd) (h : arityOk q cmd) : badArity q cmd = false := by
+  unfold badArity
+  rcases h with h | h <;> simp [h]
+
 /-! ### one frame -/
 
 theorem processFrame_queue (q : Quirks) (s : Server) (cid : Nat) (r : Req)
@@ -173,7 +191,7 @@ theorem processFrame_queue (q : Quirks) (s : Server) (cid : Nat) (r : Req)
   obtain ⟨h1, h2, h3⟩ := hq
   unfold processFrame
   have : r.cmd.isEmpty = false := by cases hc : r.cmd <;> simp_all
-  simp [this, h2, hin, h3]
+  simp [this, h2, hin, h3, badArity_other q r.cmd h2]
 
 theorem processFrame_direct (q : Quirks) (s : Server) (cid : Nat) (r : Req)
     (hne : r.cmd ≠ []) (hk : kindOf (nameOf r.cmd) = .other) (hin : (s.conns cid).inTx = false) :
@@ -184,9 +202,10 @@ theorem processFrame_direct (q : Quirks) (s : Server) (cid : Nat) (r : Req)
        .one (runOne q false cid ⟨s.store, (s.conns cid).db, s.ext⟩ r.now r.cmd).2) := by
   unfold processFrame
   have : r.cmd.isEmpty = false := by cases hc : r.cmd <;> simp_all
-  simp [this, hk, hin]
+  simp [this, hk, hin, badArity_other q r.cmd hk]
 
-theorem processFrame_exec (q : Quirks) (s : Server) (cid : Nat) (r : Req) (hn : nameOf r.cmd = "EXEC") :
+theorem processFrame_exec (q : Quirks) (s : Server) (cid : Nat) (r : Req) (hn : nameOf r.cmd = "EXEC")
+    (ha : arityOk q r.cmd) :
     processFrame q s cid r = exec q s cid r := by
   unfold processFrame
   have hne : r.cmd.isEmpty = false := by
@@ -194,7 +213,7 @@ theorem processFrame_exec (q : Quirks) (s : Server) (cid : Nat) (r : Req) (hn : 
     | nil => rw [hc] at hn; simp [nameOf] at hn
     | cons a b => rfl
   have : kindOf (nameOf r.cmd) = .exec := (kindOf_exec _).2 hn
-  simp [hne, this]
+  simp [hne, this, badArity_ok q r.cmd ha]
 
 /-! ### schedules -/
 
